@@ -152,7 +152,15 @@ class LiftedSource:
         if all(abs(c) <= Fraction(tol) * ref for c in d.terms.values()):
             return True
         if scale is None:
-            return False
+            if not isinstance(d, SymNum) or d.is_const():
+                return False
+            # semantic fallback implied by the syntactic criterion: |a-b| <= tol*ref*(1 + sum of |monomials|); gives the solver a
+            # condition to refute with a witness (a plain False would be "refuted" by an arbitrary model, e.g. all zeros)
+            M = 1
+            for m in d.terms:
+                if m:
+                    M = M + abs(SymNum({m: Fraction(1)}, False))
+            return abs(d) <= M * (Fraction(tol) * ref)
         return abs(a - b) <= scale * tol
 
     def observe(self, name, value):
